@@ -286,7 +286,17 @@ def resolve_cfg(text, features, rules):
         else:
             pd = 0
             end = None
+            is_field = len(toks) >= 2 and toks[0].kind == 'id' and toks[1].text == ':' and not (len(toks) > 2 and toks[2].text == ':')
+            ad = 0
             for k, t in enumerate(toks):
+                if is_field and t.kind == 'punct' and t.text == '<':
+                    ad += 1
+                    continue
+                if is_field and t.kind == 'punct' and t.text == '>' and ad > 0:
+                    ad -= 1
+                    continue
+                if ad > 0:
+                    continue
                 if t.kind == 'punct' and t.text in '([{':
                     pd += 1
                 elif t.kind == 'punct' and t.text in ')]}':
@@ -525,7 +535,17 @@ class Unit:
         text = drop_attrs(text, rules)
         text = drop_vis(text, rules)
         if kind in ('struct', 'enum'):
-            text = rewrite_derives(text, kind, rules, structural=('nostructural' not in opts))
+            if 'noderive' in opts:
+                text = re.sub(r'#\[derive\(([^)]*)\)\]\s*', '', text)
+                rules.add('E3-noderive')
+            else:
+                text = rewrite_derives(text, kind, rules, structural=('nostructural' not in opts))
+            if 'nodefault' in opts:
+                # E3b: drop default type arguments of generics (`<C = Default>` -> `<C>`)
+                text, n = re.subn(r'<(\w+)\s*=\s*\w+>', r'<\1>', text, count=1)
+                if n != 1:
+                    raise ExtractError(f'nodefault: no generic default in {kind} {name}')
+                rules.add('E3b')
         self.items.append({'item': f'{kind} {name}', 'file': rel, 'sha256_16': sha(raw), 'rules': sorted(rules)})
         return text + '\n'
 
@@ -549,6 +569,14 @@ class Unit:
         if 'unconst' in opts:
             sig = re.sub(r'^const\s+', '', sig)
             rules.add('E1-const')
+        if 'subst' in opts:
+            # E5: associated types of the dropped trait impl are written out
+            for pair in opts['subst'].split(';;'):
+                a, b = pair.split('=>')
+                if a not in sig:
+                    raise ExtractError(f'lost anchor: `{a}` not in signature of {path}')
+                sig = sig.replace(a, b)
+            rules.add('E5-assoc')
         if sub.get('ret'):
             sig = name_return(sig, sub['ret'], rules)
         body = resolve_cfg(body, self.features, rules)
@@ -637,7 +665,7 @@ class Unit:
                 for w in d[2:]:
                     if w.startswith('opaque='):
                         for fnname in w[len('opaque='):].split(','):
-                            text, nsub = re.subn(r'(?m)^(\s*)spec fn ' + re.escape(fnname) + r'\(', r'\1#[verifier::opaque]\n\1spec fn ' + fnname + '(', text)
+                            text, nsub = re.subn(r'(?m)^(\s*)spec fn ' + re.escape(fnname) + r'(\(|<)', r'\1#[verifier::opaque]\n\1spec fn ' + fnname + r'\2', text)
                             if nsub != 1:
                                 raise ExtractError(f'include {d[1]}: cannot mark {fnname} opaque')
                 self.items.append({'item': f'include {d[1]}', 'file': d[1], 'sha256_16': sha(text), 'rules': ['spec']})
